@@ -921,6 +921,17 @@ def rt_delimited(acc, header, rows, conf, case, probe=False):
             grows2 = [[str(x) for x in r] for r in g2.array.tolist()]
             # judged against what the default loader made of the same file (text that reads as a number is a number for both)
             want2 = [[str(x) for x in gr] for r, gr in zip(rows, g.array.tolist()) if any(expected_text(v) != "" for v in r)]
+            def norm(x):
+                # a dropped empty line can change what a column is taken for (text or numbers): numbers are compared as numbers
+                for conv in (int, float):
+                    try:
+                        return repr(conv(x))
+                    except ValueError:
+                        pass
+                return x
+
+            grows2 = [[norm(x) for x in r] for r in grows2]
+            want2 = [[norm(x) for x in r] for r in want2]
             if gh2 != list(header) or grows2 != want2:
                 fail("load_table(reader=FilteringParser): header / cells differ from the default loader [plain cells, possibly empty]",
                      {"got_header": gh2, "got": grows2[:4], "want": want2[:4], "text": text[:300]})
